@@ -17,7 +17,7 @@ def load_known():
         with open(KNOWN) as f:
             for line in f:
                 line = line.strip()
-                if line and not line.startswith("#"):
+                if line and not line.startswith("#") and not line.startswith("fixed:"):
                     out.append(json.loads(line))
     return out
 
@@ -129,17 +129,31 @@ class Check:
     def candidate(self, key, case, what):
         """A counterexample candidate (solver model turned into concrete input).  It is replayed against the
         native library in a fresh process; only a reproducing one counts."""
-        case = dict(case)
-        case["property"] = self.pid
-        case["key"] = key
-        case["what"] = what
-        blob = json.dumps(case, sort_keys=True, default=_jd)
-        digest = hashlib.sha1(blob.encode()).hexdigest()[:12]
+        self.candidates([(key, case, what)])
+
+    def candidates(self, cases):
+        """batch version: [(key, case, what)]; one fresh replay process for all of them"""
+        if not cases:
+            return
         os.makedirs(REPLAY_DIR, exist_ok=True)
-        path = os.path.join(REPLAY_DIR, "%s-%s.json" % (self.pid, digest))
-        with open(path, "w") as f:
-            f.write(blob)
-        ok, detail = run_replay(path)
+        paths = []
+        for key, case, what in cases:
+            case = dict(case)
+            case["property"] = self.pid
+            case["key"] = key
+            case["what"] = what
+            blob = json.dumps(case, sort_keys=True, default=_jd)
+            digest = hashlib.sha1(blob.encode()).hexdigest()[:12]
+            path = os.path.join(REPLAY_DIR, "%s-%s.json" % (self.pid, digest))
+            with open(path, "w") as f:
+                f.write(blob)
+            paths.append(path)
+        verdicts = run_replay_batch(paths)
+        for (key, case, what), path in zip(cases, paths):
+            ok, detail = verdicts.get(path, (None, "no verdict from replay process"))
+            self._handle(key, what, path, ok, detail)
+
+    def _handle(self, key, what, path, ok, detail):
         if ok is None:
             self.harness_error("replay of %s could not run: %s" % (path, detail))
             return
@@ -269,6 +283,35 @@ def run_replay(path, timeout=600):
     if p.returncode == 0 and last.startswith("NOT-REPRODUCED"):
         return False, last
     return None, "rc=%s out=%s err=%s" % (p.returncode, "\n".join(out[-5:]), (p.stderr or "")[-800:])
+
+
+def run_replay_batch(paths, timeout=3600):
+    """-> {path: (reproduced, detail)} from ONE fresh process"""
+    if len(paths) == 1:
+        return {paths[0]: run_replay(paths[0])}
+    env = dict(os.environ)
+    env["PYTHONPATH"] = VERIF + os.pathsep + env.get("PYTHONPATH", "")
+    lst = os.path.join(REPLAY_DIR, "tmp-batch-%d.txt" % os.getpid())
+    with open(lst, "w") as f:
+        f.write("\n".join(paths))
+    out = {}
+    try:
+        p = subprocess.run([PY, "-m", "vlib.replay", "--batch", lst], capture_output=True, text=True, timeout=timeout, env=env, cwd=VERIF)
+        for line in (p.stdout or "").splitlines():
+            if line.startswith("BATCH "):
+                rec = json.loads(line[6:])
+                out[rec["path"]] = (rec["ok"], rec["detail"])
+        if p.returncode not in (0, 1):
+            for pth in paths:
+                out.setdefault(pth, (None, "batch replay rc=%s err=%s" % (p.returncode, (p.stderr or "")[-500:])))
+    except subprocess.TimeoutExpired:
+        pass
+    finally:
+        try:
+            os.unlink(lst)
+        except OSError:
+            pass
+    return out
 
 
 # ---------------------------------------------------------------- parallel map
